@@ -67,6 +67,7 @@ type vScenario struct {
 	NoRelayExt  map[string]bool   `json:"norelayext"`  // proxies whose poll omits AcceptedRelayPattern
 	CC          map[string]string `json:"cc"`          // remote address (no port) -> country code in the test GeoIP tables ("??" = not listed)
 	GeoReload   bool              `json:"georeload"`   // herd: the operator's SIGHUP reload of the GeoIP tables while a wave is being served (C20)
+	Abort       map[string]int    `json:"abort"`       // request name -> number of response bytes after which its connection breaks (the peer hung up)
 	RollStorm   int               `json:"rollstorm"`   // herd: the measurement period ends this many times in a row while each wave is being served (C19)
 	SameOffers  bool              `json:"sameoffers"`  // every client poll of the scenario is byte-identical (same offer, NAT, fingerprint): still one request each
 	OddText     bool              `json:"oddtext"`     // offers and answers carry control characters, markup characters and runes outside the BMP
@@ -87,6 +88,7 @@ type vReq struct {
 	sid      string // session id sent on the wire (default: the request name)
 	wireload string // self-reported count sent on the wire when it is not the step's number
 	rejectable bool // proxy poll with a relay pattern the broker must refuse
+	abort      int  // > 0: the response writer fails after abort-1 bytes (0: the peer stays)
 }
 
 type vRig struct {
@@ -579,8 +581,12 @@ func (r *vRig) doProxy(q *vReq, sc *vScenario) vEvent {
 		req.RemoteAddr = "192.0.2.77:4000"
 	}
 	w := httptest.NewRecorder()
-	SnowflakeHandler{r.ipc, proxyPolls}.ServeHTTP(w, req)
+	SnowflakeHandler{r.ipc, proxyPolls}.ServeHTTP(vWriterFor(q, w), req)
 	ev := vEvent{"ev": "p.resp", "p": q.name, "client": "", "nat": "", "relay": "", "refused": false, "rejectable": q.rejectable, "natwire": q.nat, "ptype": ptype}
+	if q.abort > 0 {
+		ev["kind"] = "aborted" // the proxy never saw this response
+		return ev
+	}
 	if w.Code != 200 {
 		ev["kind"] = fmt.Sprintf("http%d", w.Code)
 		return ev
@@ -634,7 +640,11 @@ func (r *vRig) doClient(q *vReq) vEvent {
 		if q.nat != "absent" {
 			req.Header.Set("Snowflake-NAT-Type", q.nat)
 		}
-		SnowflakeHandler{r.ipc, clientOffers}.ServeHTTP(w, req)
+		SnowflakeHandler{r.ipc, clientOffers}.ServeHTTP(vWriterFor(q, w), req)
+		if q.abort > 0 {
+			ev["kind"] = "aborted"
+			return ev
+		}
 		switch w.Code {
 		case 200:
 			ev["kind"], ev["a"] = "answer", vAnswerName(w.Body.String())
@@ -654,7 +664,11 @@ func (r *vRig) doClient(q *vReq) vEvent {
 			panic(err)
 		}
 		req, _ := http.NewRequest("GET", "http://broker.example/amp/client/"+amp.EncodePath(body), nil)
-		SnowflakeHandler{r.ipc, ampClientOffers}.ServeHTTP(w, req)
+		SnowflakeHandler{r.ipc, ampClientOffers}.ServeHTTP(vWriterFor(q, w), req)
+		if q.abort > 0 {
+			ev["kind"] = "aborted"
+			return ev
+		}
 		if w.Code != 200 {
 			ev["kind"] = fmt.Sprintf("http%d", w.Code)
 			return ev
@@ -679,7 +693,11 @@ func (r *vRig) doClient(q *vReq) vEvent {
 			panic(err)
 		}
 		req, _ := http.NewRequest("POST", "http://broker.example/client", bytes.NewReader(body))
-		SnowflakeHandler{r.ipc, clientOffers}.ServeHTTP(w, req)
+		SnowflakeHandler{r.ipc, clientOffers}.ServeHTTP(vWriterFor(q, w), req)
+		if q.abort > 0 {
+			ev["kind"] = "aborted"
+			return ev
+		}
 		if w.Code != 200 {
 			ev["kind"] = fmt.Sprintf("http%d", w.Code)
 			return ev
@@ -759,13 +777,51 @@ func vWireSid(name string, similar bool) string {
 	return "QUJDRA-" + name
 }
 
+func vAbortOf(sc *vScenario, name string) int {
+	if n, ok := sc.Abort[name]; ok && n >= 0 {
+		return n + 1
+	}
+	return 0
+}
+
+// vBreakingWriter is the ResponseWriter of a connection whose peer hangs up after `limit` bytes of
+// the response body: the write that crosses the limit is cut short and fails, later ones fail.
+type vBreakingWriter struct {
+	rec   *httptest.ResponseRecorder
+	limit int
+	n     int
+}
+
+func (w *vBreakingWriter) Header() http.Header { return w.rec.Header() }
+func (w *vBreakingWriter) WriteHeader(c int)   { w.rec.WriteHeader(c) }
+func (w *vBreakingWriter) Write(p []byte) (int, error) {
+	room := w.limit - w.n
+	if room <= 0 {
+		return 0, io.ErrClosedPipe
+	}
+	if len(p) <= room {
+		w.n += len(p)
+		return w.rec.Write(p)
+	}
+	w.n += room
+	w.rec.Write(p[:room])
+	return room, io.ErrClosedPipe
+}
+
+func vWriterFor(q *vReq, rec *httptest.ResponseRecorder) http.ResponseWriter {
+	if q.abort > 0 {
+		return &vBreakingWriter{rec: rec, limit: q.abort - 1}
+	}
+	return rec
+}
+
 func (r *vRig) reqFromStep(st []interface{}, sc *vScenario) *vReq {
 	switch vStr(st[0]) {
 	case "ProxyRejected":
 		// a poll whose accepted relay pattern does not cover the broker's allowed pattern
 		return &vReq{kind: "proxy", name: vStr(st[1]), nat: "unknown", rejectable: true, sid: vWireSid(vStr(st[1]), sc.SimilarSids)}
 	case "ProxyRegister":
-		q := &vReq{kind: "proxy", name: vStr(st[1]), nat: vStr(st[2]), load: vInt(st[3]), norelay: sc.NoRelayExt[vStr(st[1])]}
+		q := &vReq{kind: "proxy", name: vStr(st[1]), nat: vStr(st[2]), load: vInt(st[3]), norelay: sc.NoRelayExt[vStr(st[1])], abort: vAbortOf(sc, vStr(st[1]))}
 		q.addr = sc.Addr[q.name]
 		if q.addr == "" {
 			q.addr = "192.0.2.77:4000"
@@ -791,7 +847,7 @@ func (r *vRig) reqFromStep(st []interface{}, sc *vScenario) *vReq {
 		if via == "" {
 			via = "post"
 		}
-		return &vReq{kind: "client", name: vStr(st[1]), nat: vStr(st[2]), fp: vStr(st[3]), via: via}
+		return &vReq{kind: "client", name: vStr(st[1]), nat: vStr(st[2]), fp: vStr(st[3]), via: via, abort: vAbortOf(sc, vStr(st[1]))}
 	case "AnswerLookup":
 		return &vReq{kind: "answer", name: vStr(st[1]), target: vStr(st[2])}
 	}
